@@ -271,9 +271,8 @@ def tokOfSlice (f : Bytes → Tok) : Option Bytes → Tok
   | some b => f b
   | none => Tok.goPanic
 
-/-- `(*Lexer).NextToken` -/
-def next (s0 : State) : Tok × State :=
-  let s1 := skipWhitespace s0
+/-- `(*Lexer).NextToken` after the call of `skipWhitespace` -/
+def nextCore (s1 : State) : Tok × State :=
   let (ch, s) := s1.readChar
   let nextChar := s.peekChar
   let adv : State := { s with pos := s.pos + 1 }
@@ -323,6 +322,9 @@ def next (s0 : State) : Tok × State :=
     (tokOfSlice (internTok t) lit, s)
   else
     (internTok ILLEGAL (stringOfByte ch), s)
+
+/-- `(*Lexer).NextToken` -/
+def next (s0 : State) : Tok × State := nextCore (skipWhitespace s0)
 
 /-- `(*Lexer).CurrentLine`: (line, position in the line, line number); `none` = slice panic -/
 def currentLine (s : State) : Option Bytes × Nat × Nat :=
